@@ -117,6 +117,24 @@ def run_property(pid, tier="quick", seed=0, verbose=False):
         for (oid, ok, where, lineno) in fn(REPO):
             statics.append(StaticObligation(f"{pid}.{oid}", ok, where, lineno))
     timeout_ms = 60000 if tier == "thorough" else 30000
+    selftest = None
+    if tier == "thorough":
+        # thorough tier: the VC generator is first compared with CPython on the synthetic functions of selftest/ (engine/selftest.py);
+        # a disagreement means no verdict of the generator can be trusted - exit 3, never a statement about numpoly
+        import subprocess
+        import sys as _sys
+        try:
+            p_ = subprocess.run([_sys.executable, "-m", "engine.selftest", "--fast"], cwd=VERIF, capture_output=True, text=True, timeout=900)
+            last = [ln for ln in p_.stdout.splitlines() if ln.startswith("selftest:")]
+            selftest = dict(cmd="python3-vt -m engine.selftest --fast", exit=p_.returncode, summary=last[-1] if last else p_.stdout[-300:])
+            if p_.returncode != 0:
+                for ln in p_.stdout.splitlines():
+                    if ln.startswith("SELFTEST-"):
+                        lines.append("   " + ln[:300])
+                lines.insert(0, f"CHECKER-ERROR property={pid}: the symbolic executor disagrees with CPython on the self-test samples (not a verdict)")
+                return 3, lines, f"{pid}: engine self-test failed; exit 3"
+        except subprocess.TimeoutExpired:
+            selftest = dict(cmd="python3-vt -m engine.selftest --fast", exit=None, summary="timed out (not a verdict)")
     os.environ["VERIF_DEEP"] = "1" if tier == "thorough" else "0"       # thorough: contracts enumerate further cases
     findings = [f for f in load_findings() if f["property"] == pid]
     reports, results, prove_s = prove(contracts, reg, REPO, timeout_ms=timeout_ms, statics=statics,
@@ -246,6 +264,8 @@ def run_property(pid, tier="quick", seed=0, verbose=False):
                             no_answer=sum(1 for d in results if d.get("z3") == "unsat" and d.get("cvc5") in ("unknown", "error")),
                             contradicts=0),
     )
+    if selftest is not None:
+        cov["engine_selftest"] = selftest
     if bounded:
         cov["bounded"] = dict(
             label="bounded stand-in / run-time cross-check of the same contract clauses; never counted as proved",
